@@ -41,6 +41,8 @@ FAULTS = [
     ('nonint', 'KF_42 = 10 / 5'), ('nonint', 'pack <I 1e3'),
     ('duplabel', '{label}:'),
     ('error', 'error planted failure 51'), ('error', '  error something else went wrong'),
+    ('noinclude', 'include ""'), ('noinclude', 'include .'), ('noinclude', 'include_bytes .'),
+    ('twin', 'bnez x8, TWIN_TARGET_91'), ('twin', 'beq x8, x9, TWIN_TARGET_91'), ('twin', 'c.beqz x8, %offset(TWIN_TARGET_91)'),
     ('noinclude', 'include missing_file_61.asm'), ('noinclude', 'include_bytes missing_blob_62.bin'), ('noinclude', 'include'),
     ('expansion', 'bgt x5, x6, {far}'), ('expansion', 'bleu x5, x6, {far}'), ('expansion', 'beqz x5, {far}'), ('expansion', 'li x99, 0x12345678'),
     ('expansion', 'sgtz x5, x77'), ('expansion', 'not q1, x5'),
@@ -58,8 +60,16 @@ def cases(draw, rot=0):
     if needs_far:
         # a label more than 4 KiB away: branch pseudo-instructions cannot reach it
         text = text.replace('{far}', 'FARAWAY_77')
+    # blank / whitespace-only lines anywhere, in particular at the very top of files (they count for the line numbers)
+    nblank = draw(st.integers(0, 4))
+    for _ in range(nblank):
+        lines.insert(draw(st.integers(0, min(len(lines), 3))) if draw(st.booleans()) else draw(st.integers(0, len(lines))), draw(st.sampled_from(['', '   ', '\t'])))
     pos = draw(st.integers(0, len(lines)))
-    lines.insert(pos, text)
+    if cls == 'twin':
+        # the same text twice: valid right after its target, out of range 5000 bytes later - the LATER line is the faulty one
+        lines = ['TWIN_TARGET_91:', text] + lines + ['string ' + 'z' * 5000, text]
+    else:
+        lines.insert(pos, text)
     if needs_far:
         lines += ['string ' + 'z' * 5000, 'FARAWAY_77:']
     if cls == 'duplabel' and not labels:
@@ -127,9 +137,33 @@ def replace_line(node, old, new):
             n.entries.append(('line', new if e[1] == old else e[1]))
         elif e[0] == 'bin':
             n.entries.append(e)
+        elif e[0] == 'again':
+            continue
         else:
             n.entries.append(('inc', replace_line(e[1], old, new)))
     return n
+
+
+def _is_later_twin(root, node, text, hit, srcdir):
+    """True when `hit` (path, line) is the LAST occurrence of text in splice order: found by assembling the positions of all lines
+    through the include tree as written on disk."""
+    seq = []
+
+    def visit(path, inc_dirs):
+        with open(path, encoding='utf-8') as f:
+            for i, line in enumerate(f.read().splitlines(), start=1):
+                if line.lower().startswith('include '):
+                    import re
+                    rel = re.sub(r'#.*$', '', line).split()[1].strip('"\'')
+                    for d in inc_dirs + [os.path.dirname(path)]:
+                        cand = os.path.join(d, rel)
+                        if os.path.isfile(cand):
+                            visit(cand, inc_dirs)
+                            break
+                elif line == text:
+                    seq.append((os.path.realpath(path), i))
+    visit(os.path.join(srcdir, 'main.asm'), [os.path.join(root, 'inc1'), os.path.join(root, 'inc2')])
+    return bool(seq) and (os.path.realpath(hit[0]), hit[1]) == seq[-1]
 
 
 def locate(rootdir, text):
@@ -163,6 +197,20 @@ def judge(case, res):
         hits = locate(root, case['fault'])
         if case['cls'] == 'duplabel':
             ok_sites = hits
+        elif case['cls'] == 'twin':
+            if len(hits) != 2:
+                raise env.HarnessError('twin line %r found %d times' % (case['fault'], len(hits)))
+            # the faulty one is the occurrence that comes later in the spliced program
+            flat = c14.flatten(case['root'])
+            last_is_second = True
+            ok_sites = [hits[-1]] if hits[-1][0] != hits[0][0] or hits[-1][1] > hits[0][1] else [hits[0]]
+            # (locate() walks files in os.walk order: decide by the text order of the splice instead)
+            order = []
+            def walk_files(node, path):
+                n = 0
+                for e in node.entries:
+                    pass
+            ok_sites = [h for h in hits if _is_later_twin(root, case['root'], case['fault'], h, srcdir)] or [hits[-1]]
         else:
             if len(hits) != 1:
                 raise env.HarnessError('planted line %r found %d times' % (case['fault'], len(hits)))
